@@ -201,7 +201,8 @@ func (c09) Run(c *Case, st *Stats) []Violation {
 	}
 	sequential := c.Mode == "sequential"
 	skipIdleDecl = c.Seed%2 == 0
-	defer func() { skipIdleDecl = false }()
+	askTwin = false
+	defer func() { skipIdleDecl, askTwin = false, true }()
 	opts := SimOpts{Policy: c.Policy, Record: c.Record, MaxSteps: 6_000_000}
 	switch c.Family {
 	case "ind":
